@@ -248,3 +248,94 @@ Theorem C01_agree_iff_holds : forall c, wf_case c ->
   (fst (fst (c01_verdict c)) = true <-> snd (fst (c01_verdict c)) = true).
 Proof. exact verdict_agree_iff_holds. Qed.
 Print Assumptions C01_agree_iff_holds.
+
+(* ---- (T) tie from the Python SOURCE: the bodies of the methods, regenerated from the ast of the current
+   boltons/dictutils.py (coq/Gen/C01_Src.v, programs of Model/C01_SrcLang.v), interpreted over the
+   pointer-level state, ARE the pointer-level model's methods.  [src_call m args p] interprets the
+   regenerated body of m (and of every method it calls).  An edit of the source changes these terms. *)
+From Boltons Require Import Model.C01_SrcLang Gen.C01_Src Proofs.C01_SrcDefs Proofs.C01_SrcInv
+  Proofs.C01_SrcEq1 Proofs.C01_SrcEq2.
+
+(* the PREV/NEXT surgery *)
+Theorem C01_source_clear_ll : forall p,
+  src_call MClearLL [] p = (Ok (VTok none_tok), mkPomd (pstore p) h_clear [] (pnxt p)).
+Proof. exact (source_clear_ll 3). Qed.
+Print Assumptions C01_source_clear_ll.
+Theorem C01_source_insert : forall p k v, Good p ->
+  src_call MInsert [VTok k; VTok v] p = (Ok (VTok none_tok), pl_insert p k v).
+Proof. exact (source_insert 3). Qed.
+Print Assumptions C01_source_insert.
+Theorem C01_source_remove : forall p k, Good p ->
+  src_call MRemove [VTok k] p = ok_or_same p (pl_remove p k).
+Proof. exact (source_remove 3). Qed.
+Print Assumptions C01_source_remove.
+Theorem C01_source_remove_all : forall p k, Good p ->
+  src_call MRemoveAll [VTok k] p = ok_or_same p (pl_remove_all p k).
+Proof. exact (source_remove_all 3). Qed.
+Print Assumptions C01_source_remove_all.
+
+(* public mutators *)
+Theorem C01_source_add : forall p k v, Good p ->
+  src_call MAdd [VTok k; VTok v] p = (Ok (VTok none_tok), pm_add p k v).
+Proof. exact (source_add 2). Qed.
+Print Assumptions C01_source_add.
+Theorem C01_source_addlist : forall p k vs, Good p ->
+  src_call MAddList [VTok k; VToks vs] p = (Ok (VTok none_tok), pm_addlist p k vs).
+Proof. exact (source_addlist 2). Qed.
+Print Assumptions C01_source_addlist.
+Theorem C01_source_clear : forall p,
+  src_call MClear [] p = (Ok (VTok none_tok), mkPomd [] h_clear [] (pnxt p)).
+Proof. exact (source_clear 2). Qed.
+Print Assumptions C01_source_clear.
+Theorem C01_source_setitem : forall p k v, Good p ->
+  src_call MSetItem [VTok k; VTok v] p = ok_or_same p (pm_setitem p k v).
+Proof. exact (source_setitem 2). Qed.
+Print Assumptions C01_source_setitem.
+Theorem C01_source_delitem : forall p k, PInv p ->
+  src_call MDelItem [VTok k] p = ok_or_same p (pm_delitem p k).
+Proof. exact (source_delitem 2). Qed.
+Print Assumptions C01_source_delitem.
+Theorem C01_source_popall : forall p q k d, Good p ->
+  src_call MPopAll [VTok k; pv_of_opt d] p = of_op p (pm_op p q (PopAll k d)).
+Proof. exact (source_popall 2). Qed.
+Print Assumptions C01_source_popall.
+Theorem C01_source_poplast : forall p q ko d, PInv p ->
+  src_call MPopLast [match ko with Some k => VTok k | None => VMissing end; pv_of_opt d] p
+  = of_op p (pm_op p q (PopLast ko d)).
+Proof. exact (source_poplast 2). Qed.
+Print Assumptions C01_source_poplast.
+Theorem C01_source_setdefault : forall p q k d, PInv p ->
+  src_call MSetDefault [VTok k; pv_of_opt d] p = of_op p (pm_op p q (SetDefault k d)).
+Proof. exact (source_setdefault 1). Qed.
+Print Assumptions C01_source_setdefault.
+Theorem C01_source_pop : forall p q k d, PInv p ->
+  src_call MPop [VTok k; pv_of_opt d] p = of_op p (pm_op p q (Pop k d)).
+Proof. exact (source_pop 1). Qed.
+Print Assumptions C01_source_pop.
+Theorem C01_source_popitem : forall p q, PInv p ->
+  src_call MPopItem [] p = of_op p (pm_op p q PopItem).
+Proof. exact (source_popitem 0). Qed.
+Print Assumptions C01_source_popitem.
+
+(* keyed readers *)
+Theorem C01_source_getitem : forall p q k,
+  src_call MGetItem [VTok k] p = of_op p (pm_op p q (GetItem k)).
+Proof. exact (source_getitem 3). Qed.
+Print Assumptions C01_source_getitem.
+Theorem C01_source_get : forall p q k d,
+  src_call MGet [VTok k; VTok (dflt d)] p = of_op p (pm_op p q (Get k d)).
+Proof. exact (source_get 3). Qed.
+Print Assumptions C01_source_get.
+Theorem C01_source_getlist : forall p q k d,
+  src_call MGetList [VTok k; pv_of_opt d] p = of_op p (pm_op p q (GetList k d)).
+Proof. exact (source_getlist 3). Qed.
+Print Assumptions C01_source_getlist.
+
+(* the hypothesis PInv is what every reachable state satisfies *)
+Example ex_pinv_nonempty : exists p, PInv p /\ pm_items p = [(1, 10); (2, 11); (1, 12)].
+Proof.
+  exists (pm_from_pairs [(1, 10); (2, 11); (1, 12)]).
+  destruct (Proofs.C01_PSim2.sim_from_pairs [(1, 10); (2, 11); (1, 12)]) as [G L].
+  split; [split; [exact G|]|vm_compute; reflexivity].
+  rewrite L. apply (proj1 (Proofs.C01_Mut1.from_pairs_ok _)).
+Qed.
